@@ -41,6 +41,8 @@ type repoKind struct {
 	inits []string
 	// open creates a fresh repository in the given initial state; state() renders its concrete persisted state.
 	open func(init string) (repo asset.Repository, state func() string, cleanup func())
+	// second returns another repository object on the same persisted store as repo (nil: the kind has no such notion)
+	second func(repo asset.Repository) asset.Repository
 }
 
 var repoSeq int64
@@ -95,44 +97,62 @@ func dirState(dir string) string {
 	return strings.Join(parts, "\x00")
 }
 
+// fsBase / sqlDsn remember where an opened repository object lives so that a second object can be opened on the same store.
+var (
+	fsBase = map[asset.Repository]string{}
+	sqlDsn = map[asset.Repository]string{}
+)
+
 func repoKinds() []repoKind {
 	return []repoKind{
-		{name: "memory", inits: []string{"empty"}, open: func(string) (asset.Repository, func() string, func()) {
+		{name: "memory", inits: []string{"empty", "reads-between-appends"}, open: func(string) (asset.Repository, func() string, func()) {
 			r := asset.NewInMemoryRepository()
 			return r, func() string { return core.Dump(r) }, func() {}
 		}},
-		{name: "filesystem", inits: []string{"empty", "empty-file-A", "header-only-A", "base-path-with-pattern-characters"}, open: func(init string) (asset.Repository, func() string, func()) {
-			dir := mustTempDir("c10")
-			top := dir
-			switch init {
-			case "base-path-with-pattern-characters":
-				// the base directory is a path, not a pattern: "r[1]*? e" is a legal directory name, and the sibling "r1 e"
-				// (which a glob reading of the base would match) holds an asset of another repository
-				sib := filepath.Join(top, "r1 e")
-				os.Mkdir(sib, 0o700)
-				os.WriteFile(filepath.Join(sib, "Q.csv"), []byte("Date,Open,High,Low,Close,Volume\n2021-03-01,1,1,1,1,1\n"), 0o600)
-				dir = filepath.Join(top, "r[1]*? e")
-				if err := os.Mkdir(dir, 0o700); err != nil {
+		{name: "filesystem", inits: []string{"empty", "empty-file-A", "header-only-A", "base-path-with-pattern-characters", "reads-between-appends", "two-objects"},
+			second: func(r asset.Repository) asset.Repository { return asset.NewFileSystemRepository(fsBase[r]) },
+			open: func(init string) (asset.Repository, func() string, func()) {
+				dir := mustTempDir("c10")
+				top := dir
+				switch init {
+				case "base-path-with-pattern-characters":
+					// the base directory is a path, not a pattern: "r[1]*? e" is a legal directory name, and the sibling "r1 e"
+					// (which a glob reading of the base would match) holds an asset of another repository
+					sib := filepath.Join(top, "r1 e")
+					os.Mkdir(sib, 0o700)
+					os.WriteFile(filepath.Join(sib, "Q.csv"), []byte("Date,Open,High,Low,Close,Volume\n2021-03-01,1,1,1,1,1\n"), 0o600)
+					dir = filepath.Join(top, "r[1]*? e")
+					if err := os.Mkdir(dir, 0o700); err != nil {
+						panic(err)
+					}
+				}
+				switch init {
+				case "empty-file-A":
+					os.WriteFile(filepath.Join(dir, "A.csv"), nil, 0o600)
+				case "header-only-A":
+					os.WriteFile(filepath.Join(dir, "A.csv"), []byte("Date,Open,High,Low,Close,Volume\n"), 0o600)
+				}
+				r := asset.NewFileSystemRepository(dir)
+				fsBase[r] = dir
+				return r, func() string { return dirState(dir) }, func() { os.RemoveAll(top); delete(fsBase, r) }
+			}},
+		{name: "sql", inits: []string{"empty", "reads-between-appends", "two-objects"},
+			second: func(r asset.Repository) asset.Repository {
+				r2, err := asset.NewSQLRepository("verifsql", sqlDsn[r], fakeDialect{})
+				if err != nil {
 					panic(err)
 				}
-			}
-			switch init {
-			case "empty-file-A":
-				os.WriteFile(filepath.Join(dir, "A.csv"), nil, 0o600)
-			case "header-only-A":
-				os.WriteFile(filepath.Join(dir, "A.csv"), []byte("Date,Open,High,Low,Close,Volume\n"), 0o600)
-			}
-			r := asset.NewFileSystemRepository(dir)
-			return r, func() string { return dirState(dir) }, func() { os.RemoveAll(top) }
-		}},
-		{name: "sql", inits: []string{"empty"}, open: func(string) (asset.Repository, func() string, func()) {
-			dsn := fmt.Sprintf("c10-%d-%d", os.Getpid(), atomic.AddInt64(&repoSeq, 1))
-			r, err := asset.NewSQLRepository("verifsql", dsn, fakeDialect{})
-			if err != nil {
-				panic(err)
-			}
-			return r, func() string { return theFakeDriver.dump(dsn) }, func() { r.Close(); theFakeDriver.drop(dsn) }
-		}},
+				return r2
+			},
+			open: func(string) (asset.Repository, func() string, func()) {
+				dsn := fmt.Sprintf("c10-%d-%d", os.Getpid(), atomic.AddInt64(&repoSeq, 1))
+				r, err := asset.NewSQLRepository("verifsql", dsn, fakeDialect{})
+				if err != nil {
+					panic(err)
+				}
+				sqlDsn[r] = dsn
+				return r, func() string { return theFakeDriver.dump(dsn) }, func() { r.Close(); theFakeDriver.drop(dsn); delete(sqlDsn, r) }
+			}},
 	}
 }
 
@@ -286,18 +306,45 @@ func replayRepo(k repoKind, init string, hist []repoOp) (state string, viol stri
 	if init != "empty" {
 		m.appended["A"] = true // the file exists (without snapshots), as after an Append of an empty batch
 	}
+	if init != "empty" && init != "empty-file-A" && init != "header-only-A" {
+		delete(m.appended, "A")
+	}
+	// "reads-between-appends": every read is issued on the same object before the first and after every Append (an object
+	// may not remember what it read earlier); "two-objects": in addition the Appends at odd steps go through a second
+	// object on the same store (another process, another part of the program): the persisted map is the store, not the object
+	interleave := init == "reads-between-appends" || init == "two-objects"
+	var other asset.Repository
 	res := mc.Run(func() {
+		if init == "two-objects" && k.second != nil {
+			other = k.second(repo)
+		}
+		if interleave {
+			if v, ky := checkReads(repo, m, k.name, true); v != "" {
+				viol, key = "before the first Append: "+v, ky
+				return
+			}
+		}
 		for i, op := range hist {
 			var batch []*asset.Snapshot
 			for _, d := range op.Batch {
 				batch = append(batch, snap(d, op.Var))
 			}
-			if err := repo.Append(op.Name, Feed(batch, 0)); err != nil {
+			w := repo
+			if other != nil && i%2 == 1 {
+				w = other
+			}
+			if err := w.Append(op.Name, Feed(batch, 0)); err != nil {
 				viol = fmt.Sprintf("step %d %v failed: %v", i, op, err)
 				return
 			}
 			m.data[op.Name] = append(m.data[op.Name], batch...)
 			m.appended[op.Name] = true
+			if interleave && i < len(hist)-1 {
+				if v, ky := checkReads(repo, m, k.name, true); v != "" {
+					viol, key = fmt.Sprintf("reads after step %d of %d: %s", i, len(hist), v), ky
+					return
+				}
+			}
 		}
 		before := stateFn()
 		viol, key = checkReads(repo, m, k.name, false)
